@@ -525,19 +525,6 @@ def run_check(prop: str, tier: str, seed: int, runs: int | None = None, workers:
             )
             violations_new.append((viol["site"], path, f"expected={viol['expected']} actual={viol['actual']}"))
 
-        # ---- 4. determinism self-test on a sample of this batch ----
-        selftest = None
-        n_pairs = selftest_pairs if selftest_pairs is not None else (64 if tier == "quick" else 256)
-        if n_pairs:
-            selftest = determinism_selftest(prop, tier, seed, (classes, per_class, offs), cfg, n_pairs, pools)
-            if selftest["mismatches"]:
-                raise HarnessError(f"determinism self-test failed: {selftest['mismatches'][:3]}")
-
-        # ---- 5. interception self-test ----
-        min_pools = getattr(mod, "EXPECT_POOLS", True)
-        if min_pools and probes.get("pools_ge2", 0) == 0 and total["n"] >= 50:
-            raise HarnessError("seam lost: no simulated pool with >=2 tasks was created in the whole batch")
-
         # ---- 6. report ----
         for line in known_lines:
             print(line)
@@ -551,6 +538,19 @@ def run_check(prop: str, tier: str, seed: int, runs: int | None = None, workers:
             print(f"VIOLATION-UNSHRUNK property={prop} site={json.dumps(by_site[sh][0]['site'], sort_keys=True)} (more than 24 new sites in one batch)")
         if violations_new or unshrunk_sites:
             exit_code = 1
+        # ---- 4. determinism self-test on a sample of this batch ----
+        selftest = None
+        n_pairs = selftest_pairs if selftest_pairs is not None else (64 if tier == "quick" else 256)
+        if n_pairs:
+            selftest = determinism_selftest(prop, tier, seed, (classes, per_class, offs), cfg, n_pairs, pools)
+            if selftest["mismatches"]:
+                raise HarnessError(f"determinism self-test failed: {selftest['mismatches'][:3]}")
+
+        # ---- 5. interception self-test ----
+        min_pools = getattr(mod, "EXPECT_POOLS", True)
+        if min_pools and probes.get("pools_ge2", 0) == 0 and total["n"] >= 50:
+            raise HarnessError("seam lost: no simulated pool with >=2 tasks was created in the whole batch")
+
         stuck = [p for p in getattr(mod, "EXPECTED_PROBES", []) if probes.get(p, 0) == 0]
         for p in stuck:
             print(f"WARNING: reach probe '{p}' stuck at zero in this batch")
